@@ -26,6 +26,8 @@ pub struct Engine<'a, L> {
     node: Vec<HashMap<Box<str>, Vec<RdfObject>>>,
     // Maps each graph_name index to its subjects indexes
     unique_parent: HashMap<Box<str>, Option<(usize, Box<str>)>>,
+    // Maps each bnode id to the (first) graph_id in which it is a subject
+    subject_graph: HashMap<Box<str>, Box<str>>,
     // List seeds
     list_seeds: Vec<usize>,
     // Mark bnode ids as list node, and map to their index
@@ -43,6 +45,7 @@ impl<'a, L> Engine<'a, L> {
             gs_id: Vec::new(),
             node: Vec::new(),
             unique_parent: HashMap::new(),
+            subject_graph: HashMap::new(),
             list_seeds: Vec::new(),
             list_node: HashMap::new(),
             compound_literals: HashSet::new(),
@@ -72,11 +75,22 @@ impl<'a, L> Engine<'a, L> {
             let is = self.index(g_id.clone(), s_id.clone());
             if let Some(g) = q.g() {
                 let ig = self.index(" ".to_string(), g_id.clone());
-                self.node[ig].push_if_new("@graph", RdfObject::Node(is, s_id));
+                self.node[ig].push_if_new("@graph", RdfObject::Node(is, s_id.clone()));
                 if g.is_bnode() {
                     // a blank node that names a graph must keep its label:
                     // it can not be folded into an anonymous @list
                     self.unique_parent.insert(g_id.clone(), None);
+                }
+            }
+            if q.s().is_bnode() {
+                // a blank node described in several graphs must keep its label:
+                // it can not be folded into an anonymous @list in one of them
+                let first_g_id = self
+                    .subject_graph
+                    .entry(s_id.clone())
+                    .or_insert_with(|| g_id.clone());
+                if *first_g_id != g_id {
+                    self.unique_parent.insert(s_id.clone(), None);
                 }
             }
             let obj = self.make_rdf_object(q.o(), &g_id);
